@@ -186,6 +186,7 @@ class Interp:
         self.obj_classes: dict[str, str] = {}  # class name -> module name, for sample objects of non-LNodes classes
         self.ctx: list = []  # module context of the function being interpreted (name resolution follows its imports)
         self.modconsts: dict = {}  # module-level literal containers, one object per interpreter
+        self.prec: dict[str, int] = {}  # PRECEDENCE table, when a rule needs the numbers
         self.depth = 0
         # class-level aliases such as `__truediv__ = __div__`
         self.aliases: dict[tuple[str, str], str] = {}
@@ -768,7 +769,7 @@ class Interp:
         if isinstance(e, ast.Attribute):
             d = dotted(e)
             if d and d.startswith("PRECEDENCE."):
-                return 0
+                return self.prec.get(d.split(".", 1)[1], 0)  # the real table when the rule supplies it (instance-level precedence), 0 otherwise
             if d and d.startswith("DataType."):
                 return "DataType." + e.attr
             if d and d in self.overrides:
@@ -1107,7 +1108,28 @@ class Interp:
             x = vals[0]
             if isinstance(x, Node):
                 return x.f["value"]
+            if fn == "int" and len(vals) == 2:
+                try:
+                    return int(x, vals[1])
+                except (TypeError, ValueError) as ex:
+                    raise Raised(f"{type(ex).__name__}: {ex}")
             return int(x) if fn == "int" else float(x)
+        if fn == "bool" and len(vals) == 1:
+            return self.truth(vals[0])
+        if fn == "hash" and len(vals) == 1:
+            x = vals[0]
+            if isinstance(x, Node):
+                hm = self.find_method(x.cls, "__hash__")
+                if hm is None:
+                    raise AnalysisError(f"absint: hash() of {x.cls}, which defines no __hash__ (identity hash: differs between runs)")
+                return self.call_f(hm, [x])
+            if isinstance(x, (str, int, float, tuple, frozenset, PyNative)) or x is None:
+                if isinstance(x, str):
+                    return ("strhash", x)  # str hashes are salted per process: kept symbolic, equal strings give equal hashes
+                if isinstance(x, tuple):
+                    return ("tuplehash",) + tuple(self.call_builtin_hash(e_) for e_ in x)
+                return hash(x)
+            raise AnalysisError(f"absint: hash() of {type(x).__name__}")
         if fn in ("any", "all"):
             seq = [self.truth(x) for x in self.iterate(vals[0])]
             return any(seq) if fn == "any" else all(seq)
@@ -1234,6 +1256,18 @@ class Interp:
                 f = self.dispatch(f, vals[0])
             return self.call_f(f, vals, kw) if hasattr(f, "module") else self.call_func(f.node, vals, kw)
         raise AnalysisError(f"absint: cannot call `{ast.unparse(e.func)}`")
+
+    def call_builtin_hash(self, x):
+        if isinstance(x, Node):
+            hm = self.find_method(x.cls, "__hash__")
+            if hm is None:
+                raise AnalysisError(f"absint: hash() of {x.cls}, which defines no __hash__")
+            return self.call_f(hm, [x])
+        if isinstance(x, str):
+            return ("strhash", x)
+        if isinstance(x, tuple):
+            return ("tuplehash",) + tuple(self.call_builtin_hash(e_) for e_ in x)
+        return hash(x)
 
     def class_chain(self, x) -> list[str]:
         """Class names of a value, most specific first (sample nodes: own class, LNodes bases, `extra_bases`, transitively)."""
